@@ -62,6 +62,13 @@ def gen_plan(tape, cfg):
         if tape.chance(1, 2, "usort2"):
             symbols["w0"] = ["S", "VW"]
             symbols["w1"] = ["S", "VW"]
+    if tape.chance(1, 4, "uf?"):
+        # uninterpreted functions over tiny domains (the reference solver enumerates their tables)
+        symbols["fn1"] = ["Fun", [bp.BV(1)], bp.BV(1)]
+        if tape.chance(1, 2, "uf2"):
+            symbols["pr"] = ["Fun", [bp.BOOL, bp.BV(1)], bp.BOOL]
+        if not any(bp.is_bv(s_) and s_[1] == 1 for s_ in symbols.values()):
+            symbols["o1"] = bp.BV(1)
     ctx = bp.GenCtx(symbols, bv=True, usorts=use_usort)
     nsolvers = 2 if tape.chance(1, 4, "two solvers") else 1
     kinds = [(6, "assert"), (3, "push"), (3, "pop"), (4, "solve"), (1, "reset")]
@@ -69,7 +76,9 @@ def gen_plan(tape, cfg):
                  (1, "shortcut")]:
         if tape.chance(3, 4, "enable." + k):
             kinds.append((w, k))
-    if use_usort:
+    if use_usort or any(bp.is_fun(s_) for s_ in symbols.values()):
+        # SmtLibSolver.get_model() has no representation for values of declared sorts nor for
+        # function interpretations: not asked in these runs (limitation noted in DESIGN.md)
         kinds = [(w, k) for w, k in kinds if k not in ("get_model",)]
     n = tape.rint(5, 25, "nops")
     ops = []
@@ -93,6 +102,10 @@ def gen_plan(tape, cfg):
             return ["sym", nm, srt]
         if t[0] in ("bool", "int", "real", "bv"):
             return t
+        if t[0] == "app":
+            nm = "%s#%d" % (t[1], e)
+            symbols[nm] = ["Fun", t[2], t[3]]
+            return ["app", nm, t[2], t[3]] + [ren(x, e) for x in t[4:]]
         base = 1 + bp.PARAM_OPS.get(t[0], 0)
         return t[:base] + [ren(x, e) for x in t[base:]]
 
@@ -107,10 +120,11 @@ def gen_plan(tape, cfg):
         elif k in ("push", "pop"):
             o["n"] = tape.weighted([(5, 1), (3, 2), (1, 3)], "levels")
         elif k == "get_value":
-            srt = tape.choice([s_ for s_ in symbols.values() if not bp.is_usort(s_)] or [bp.BOOL], "gv.sort")
+            srt = tape.choice([s_ for s_ in symbols.values() if not bp.is_usort(s_) and not bp.is_fun(s_)] or [bp.BOOL], "gv.sort")
             o["t"] = bp.gen_term(tape, srt, tape.rint(0, 2, "gv.depth"), ctx)
         elif k == "shortcut":
-            o["kind"] = tape.choice(["is_sat", "is_valid", "is_unsat", "get_model"] if not use_usort
+            o["kind"] = tape.choice(["is_sat", "is_valid", "is_unsat", "get_model"]
+                                    if not (use_usort or any(bp.is_fun(s_) for s_ in symbols.values()))
                                     else ["is_sat", "is_valid", "is_unsat"], "shortcut.kind")
             o["f"] = bp.gen_term(tape, bp.BOOL, 2, ctx)
         for key in ("f", "t"):
@@ -274,7 +288,7 @@ def execute(plan, tape):
     env = reset_env()
     mgr = env.formula_manager
     symbols = plan["symbols"]
-    has_usort = any(bp.is_usort(s) for s in symbols.values())
+    has_usort = any(bp.is_usort(s) or bp.is_fun(s) for s in symbols.values())
     logic = QF_UFBV if has_usort else QF_BV
     faulty = plan["family"] == "faulty"
     kernel = Kernel(tape, max_steps=50000, max_time=1e7)
